@@ -33,10 +33,10 @@ PROPS["C07"] = {
 }
 
 PROPS["C02"] = {
-    "units": ["h1_transfer_encoding", "h1_codec", "h1_dispatcher_io"],
+    "units": ["h1_transfer_encoding", "h1_codec", "h1_dispatcher_io", "h1_chunked"],
     "kani": [],
     "technique": "Verus contracts on the extracted real TransferEncoding encoder against an RFC 7230 chunk-framing oracle (exact bytes appended, length enforcement, terminator exactly once, short body is an error)",
-    "level_text": "deductive proof, for all chunk contents/lengths and encoder states, that TransferEncoding::encode/encode_eof append exactly the oracle's bytes (chunked: hex CRLF data CRLF, terminator once; sized: cut to the declared length; eof: pass-through) and that a short sized body yields UnexpectedEof",
+    "level_text": "deductive proof, for all chunk contents/lengths and encoder states, that TransferEncoding::encode/encode_eof append exactly the oracle's bytes (chunked: hex CRLF data CRLF, terminator once; sized: cut to the declared length; eof: pass-through) and that a short sized body yields UnexpectedEof; MessageEncoder::encode chooses the body framing from (HEAD?, body size, chunked allowed, upgrade stream) of THIS message only; Codec::encode encodes the head with exactly the context recorded when that request was decoded; poll_flush writes every buffered byte exactly once and in order; and the theorem decode-of-encode (lemma_decode_of_encode in unit h1_chunked, over the shared wire oracle specs/chunked_wire.vs): for every list of non-empty chunks, the bytes the chunked encoder writes are decoded by the RFC 7230 automaton to exactly their concatenation, ending in state End with nothing left over",
     "level_note": "assumes shim contracts for bytes::BytesMut and that writeln!(MutWriter(buf), \"{:X}\\r\", n) appends upper-hex(n) CR LF (R12); dispatcher-level clauses (one response per request, ordering, independence across pipelined requests) are listed under not_decided_clauses",
     "not_decided": ["exactly one final response per dispatched request, in request order, never interleaved (h1::Dispatcher state machine: not under contract)",
                     "framing depends only on that request/response, not on other pipelined requests (Codec context held while a response is in flight; DESIGN.md S1)",
